@@ -216,6 +216,7 @@ def evaluate(ctx, case):
     ops = _fix_iter_ops(case["ops"])
     G.write_gro(path, case["title"], residues, case["coordseed"], case["vel"])
     raw = G.parse_gro_raw(path)
+    file_bytes = open(path, "rb").read()
     atoms = raw["atoms"]
     runs = G.runs_of(atoms)
     nres = len(runs)
@@ -375,18 +376,42 @@ def evaluate(ctx, case):
 
     # ------------------------------------------------------------------ model
     recs = [(a[0], a[1], a[2]) for a in atoms]
-    toks = f"0 {G.tok_records(recs)} {G.tok_ops(ops)}"
+    # every third case of moderate size goes through the BYTE path: the model opens the very bytes of the file
+    # (`sysGroOfBytes` = C13's reader composed with the view) instead of being handed the parsed records
+    by_bytes = len(atoms) <= 700 and _counter[0] % 3 == 0
+    ctx.count("model-input:" + ("file-bytes" if by_bytes else "parsed-records"))
+    if by_bytes:
+        toks = f"{file_bytes.hex()} {G.tok_ops(ops)}"
+    else:
+        toks = f"0 {G.tok_records(recs)} {G.tok_ops(ops)}"
 
-    def as_idx(res_tuples_list):
-        """residues (lists of atom tuples) → the file must contain exactly these atoms at the model's indices"""
-        return res_tuples_list
-
-    def cb(status, toks, case, impl=impl, results=results, internals=internals, atoms=atoms):
+    def cb(status, toks, case, impl=impl, results=results, internals=internals, atoms=atoms, by_bytes=by_bytes,
+           hdr=(title_impl, natoms_impl, [float(x) for x in box_impl.flatten()])):
+        from ..grogen import same_float
         T = G.Toks(toks)
         tag = T.tok()
+        if tag == "G":
+            ctx.disagree(case, "GroFile(path)", "opened", T.tok())
+            return
         if tag == "E":
             ctx.disagree(case, "SystemGro.__init__", "constructed", T.tok())
             return
+        if by_bytes:
+            m_title = T.str()
+            m_natoms = T.int()
+            m_box = [T.num() for _ in range(9)]
+            m_recs = T.list(T.rrec)
+            if m_title != hdr[0]:
+                ctx.disagree(case, "comment_line (byte path)", hdr[0], m_title)
+            if m_natoms != hdr[1]:
+                ctx.disagree(case, "n_atoms (byte path)", hdr[1], m_natoms)
+            if len(m_box) != len(hdr[2]) or not all(same_float(a, b) for a, b in zip(m_box, hdr[2])):
+                ctx.disagree(case, "box_matrix (byte path)", hdr[2], m_box)
+            if len(m_recs) != len(atoms) or not all(G.same_atom(a, b) for a, b in zip(m_recs, atoms)):
+                bad = next((i for i, (a, b) in enumerate(zip(m_recs, atoms)) if not G.same_atom(a, b)), None)
+                ctx.disagree(case, "atom records (byte path)", [len(atoms), atoms[bad] if bad is not None else None],
+                             [len(m_recs), m_recs[bad] if bad is not None else None])
+                return
         m_templates = T.list(T.residue)
         m_pk = sorted(T.list(lambda: (T.str(), T.int(), T.int())))
         m_ordered = T.list(lambda: (T.int(), T.int()))
@@ -436,7 +461,7 @@ def evaluate(ctx, case):
 
     case_for_replay = dict(case)
     case_for_replay["ops"] = ops
-    ctx.model.ask("sysgro", toks, cb, case_for_replay)
+    ctx.model.ask("sysgrob" if by_bytes else "sysgro", toks, cb, case_for_replay)
     if _counter[0] % 20 == 0:
         ctx.model.flush(ctx)      # the callbacks hold every op result of the case: keep memory bounded
 
